@@ -25,12 +25,18 @@ structure Variant where
   rejectBool : Bool
   lookupGuard : Bool
   sortGuard : Bool
+  /-- does a `send_request` / `send_batch` that raises still use up the ids it drew?  (It does in
+      the tree: the ids are drawn before the message is built.)  The property does not care -
+      ids only have to be fresh - so this is a parameter read from the facts, not a law. -/
+  failDrawsSingle : Bool := true
+  failDrawsBatch : Bool := true
   deriving DecidableEq, Repr
 
 /-- the tree after fixes/F07 -/
-def repaired (lookupGuard sortGuard : Bool) : Variant := ⟨true, lookupGuard, sortGuard⟩
+def repaired (lookupGuard sortGuard : Bool) : Variant :=
+  { rejectBool := true, lookupGuard := lookupGuard, sortGuard := sortGuard }
 /-- the pinned tree -/
-def pinned : Variant := ⟨false, false, false⟩
+def pinned : Variant := { rejectBool := false, lookupGuard := false, sortGuard := false }
 
 /-- what a well-formed response carries: a result value or an error object (`RPCError`) -/
 inductive Res (V : Type) where
@@ -228,13 +234,15 @@ def step {V : Type} (vr : Variant) (k : Nat) (c : Conn V) : Op V → Conn V × O
       if ok then
         ({ c with next := id + k, out := c.out ++ [(.single id, c.futs.length)],
                   futs := c.futs ++ [.pending] }, .sent [id] (some c.futs.length))
-      else ({ c with next := id + k }, .raised .protocolError)
+      else ({ c with next := if vr.failDrawsSingle then id + k else id }, .raised .protocolError)
   | .sendBatch ms ok =>
       let n := reqCount ms
       let ids := List.range' c.next n k
       let c1 := { c with next := c.next + n * k }
       -- before anything is received AutoDetect formats (and allows batches) like 2.0
-      if !((c.proto.getD .v2).allowBatches) || !ok || ms.isEmpty then (c1, .raised .protocolError)
+      if !((c.proto.getD .v2).allowBatches) || !ok || ms.isEmpty then
+        ({ c with next := if vr.failDrawsBatch then c.next + n * k else c.next },
+         .raised .protocolError)
       else if n = 0 then (c1, .sent [] none)
       else ({ c1 with out := c.out ++ [(.batch ids, c.futs.length)],
                       futs := c.futs ++ [.pending] }, .sent ids (some c.futs.length))
